@@ -238,6 +238,38 @@ def r16_2(ctx: Ctx):
     ctx.ob("R16.2", wr, loops[0] if loops else "write loop", okw,
            "the writer visits every key of the file and every path of the loop body writes it out", node=loops[0] if loops else wr.node,
            detail=detail)
+    # a section's text is followed by a line break: the last stored line of a section need not end with one (a source
+    # file without a final newline), and the section text is the plain concatenation of its lines
+    sec_writes = []
+    if loops:
+        for c in calls_in(loops[0]):
+            if call_name(c) == "write" and c.args and not any(isinstance(a_, ast.For) and a_ is not loops[0] and any(c is x for x in ast.walk(a_))
+                                                               for a_ in walk_no_nested(loops[0])):
+                sec_writes.append(c)
+    joined_plain = any(isinstance(c_, ast.Call) and call_name(c_) == "join" and isinstance(c_.func, ast.Attribute)
+                       and isinstance(c_.func.value, ast.Constant) and c_.func.value.value == "" for c_ in ast.walk(sstr.node))
+    for c in sec_writes:
+        a_ = c.args[0]
+        txt = norm(a_)
+        terminated = None
+        if isinstance(a_, ast.Call) and call_name(a_) == "format" and isinstance(a_.func.value, ast.Constant):
+            terminated = str(a_.func.value.value).endswith("\n")
+        elif isinstance(a_, ast.JoinedStr):
+            last = a_.values[-1] if a_.values else None
+            terminated = isinstance(last, ast.Constant) and str(last.value).endswith("\n")
+        elif isinstance(a_, ast.BinOp) and isinstance(a_.op, ast.Add) and isinstance(a_.right, ast.Constant):
+            terminated = str(a_.right.value).endswith("\n")
+        elif isinstance(a_, ast.Call) and call_name(a_) in ("str", "__str__") or isinstance(a_, ast.Name):
+            terminated = False
+        if terminated is None:
+            ctx.ob("R16.2", wr, c, True, "text written for a section not in a recognised form; terminator not decided on this tree",
+                   undecided=True, node=c)
+        elif terminated or not joined_plain:
+            ctx.ob("R16.2", wr, c, True, "the text written for a section ends with a line break", node=c)
+        else:
+            ctx.ob("R16.2", wr, c, False, "the text written for a section ends with a line break -- `%s` writes the section as the plain "
+                   "concatenation of its lines: when the last line of a section has no terminator (a file without a final newline) "
+                   "the next `[ header ]` is glued onto it" % txt[:60], node=c)
     # header lines are written verbatim
     inner = [n for n in walk_no_nested(wr.node) if isinstance(n, ast.For) and n not in loops]
     okh = any(any(call_name(c) == "write" and c.args and norm(c.args[0]) == norm(n.target) for c in calls_in(n))
@@ -323,49 +355,98 @@ def parse_states(ctx: Ctx, f: Func) -> Optional[List[Tuple[S, S, str]]]:
     for p in enum_paths(f.node.body):
         if p.end != "return":
             continue
-        env: Dict[str, S] = {}
-        blank = False
-        split_safe = False
-        last_char_not_nl = False
-        for ev in p.events:
-            if ev[0] == "c":
-                t = norm(ev[1])
-                if t == "not %s.strip()" % param and ev[2]:
-                    blank = True
-                # `sep in line[:-1]` true: a separator before the last character
-                if isinstance(ev[1], ast.Compare) and isinstance(ev[1].ops[0], ast.In) and ev[2] \
-                        and norm(ev[1].comparators[0]) == "%s[:-1]" % param:
-                    split_safe = True
-                # `line[-1] == ';'` true: the line does not end with a newline (outside our precondition)
-                if isinstance(ev[1], ast.Compare) and norm(ev[1].left) == "%s[-1]" % param and ev[2] \
-                        and isinstance(ev[1].ops[0], ast.Eq) and isinstance(ev[1].comparators[0], ast.Constant) \
-                        and ev[1].comparators[0].value != "\n":
-                    last_char_not_nl = True
-            elif ev[0] == "s" and isinstance(ev[1], ast.Assign) and isinstance(ev[1].targets[0], ast.Name):
-                v = ev[1].value
-                if isinstance(v, ast.Call) and call_name(v) in ("split", "partition", "rsplit") \
-                        and norm(v.func.value) == param:
-                    env[ev[1].targets[0].id] = S("?", True, True, "split:" + norm(v))
-                else:
-                    a = _abstract_piece(v, param, env, split_safe)
-                    if a is not None:
-                        env[ev[1].targets[0].id] = a
-        ret = p.end_node.value
-        if last_char_not_nl:
-            continue          # infeasible under the precondition 'line ends with a newline'
-        if not isinstance(ret, ast.Tuple) or len(ret.elts) != 2:
-            return None
-        if blank:
-            out.append((EMPTY(), EMPTY(), "blank line"))
-            continue
-        a = _abstract_piece(ret.elts[0], param, env, split_safe)
-        b = _abstract_piece(ret.elts[1], param, env, split_safe)
-        if a is None or b is None:
-            return None
-        # a piece that is the empty literal carries no text; the first piece of the split of a line
-        # whose content part may be empty (";  comment") may be empty as well
-        out.append((a, b, norm(ret)))
+        # `a, _, b = line.partition(sep)` forks the analysis: separator absent / present
+        has_part = any(ev[0] == "s" and isinstance(ev[1], ast.Assign) and isinstance(ev[1].targets[0], ast.Tuple)
+                       and isinstance(ev[1].value, ast.Call) and call_name(ev[1].value) == "partition" for ev in p.events)
+        for sep_present in ((False, True) if has_part else (None,)):
+            r = _eval_path(p, param, sep_present)
+            if r == "unknown":
+                return None
+            if r is not None:
+                out.append(r)
     return out
+
+
+def _eval_path(p, param: str, sep_present):
+    env: Dict[str, S] = {}
+    blank = False
+    split_safe = False
+    last_char_not_nl = False
+    alias: Dict[str, str] = {}          # locals that name a slice / character of the line
+    for ev in p.events:
+        if ev[0] == "s" and isinstance(ev[1], ast.Assign) and isinstance(ev[1].targets[0], ast.Name) \
+                and isinstance(ev[1].value, ast.Subscript) and norm(ev[1].value.value) == param:
+            alias[ev[1].targets[0].id] = norm(ev[1].value)
+        if ev[0] == "c":
+            t = norm(ev[1])
+            if t == "not %s.strip()" % param and ev[2]:
+                blank = True
+            if t == "%s.strip()" % param and not ev[2]:
+                blank = True
+
+            def _n(x):
+                return alias.get(x.id, norm(x)) if isinstance(x, ast.Name) else norm(x)
+            # `sep in line[:-1]` true: a separator before the last character
+            if isinstance(ev[1], ast.Compare) and isinstance(ev[1].ops[0], ast.In) and ev[2] \
+                    and _n(ev[1].comparators[0]) == "%s[:-1]" % param:
+                split_safe = True
+            # `line[-1] == ';'` true: the line does not end with a newline (outside our precondition)
+            if isinstance(ev[1], ast.Compare) and _n(ev[1].left) == "%s[-1]" % param and ev[2] \
+                    and isinstance(ev[1].ops[0], ast.Eq) and isinstance(ev[1].comparators[0], ast.Constant) \
+                    and ev[1].comparators[0].value != "\n":
+                last_char_not_nl = True
+            # `piece.strip()` as a test refines what the piece may be
+            tt, pol = ev[1], ev[2]
+            while isinstance(tt, ast.UnaryOp) and isinstance(tt.op, ast.Not):
+                tt, pol = tt.operand, not pol
+            if isinstance(tt, ast.Call) and call_name(tt) == "strip" and isinstance(tt.func, ast.Attribute) \
+                    and isinstance(tt.func.value, ast.Name) and tt.func.value.id in env and not tt.args:
+                cur = env[tt.func.value.id]
+                if pol:
+                    if not cur.nonempty:
+                        return None                   # infeasible: the piece cannot hold text
+                    env[tt.func.value.id] = cur.copy(nonempty=True, wsonly=False)
+                else:
+                    if cur.end != "empty" and not cur.wsonly:
+                        return None
+                    env[tt.func.value.id] = cur.copy(nonempty=False)
+        elif ev[0] == "s" and isinstance(ev[1], ast.Assign) and isinstance(ev[1].targets[0], ast.Tuple) \
+                and isinstance(ev[1].value, ast.Call) and call_name(ev[1].value) == "partition" \
+                and norm(ev[1].value.func.value) == param and len(ev[1].targets[0].elts) == 3 and sep_present is not None:
+            names = [e_.id if isinstance(e_, ast.Name) else None for e_ in ev[1].targets[0].elts]
+            if sep_present:
+                # text before the first separator (no terminator); text after it, up to and including the terminator
+                if names[0]:
+                    env[names[0]] = S("drop", True, True, "partition[0]")
+                if names[2]:
+                    env[names[2]] = S("keep", True, True, "partition[2]")
+            else:
+                if names[0]:
+                    env[names[0]] = S("keep", True, False, "partition[0] (whole line)")
+                if names[2]:
+                    env[names[2]] = EMPTY()
+        elif ev[0] == "s" and isinstance(ev[1], ast.Assign) and isinstance(ev[1].targets[0], ast.Name):
+            v = ev[1].value
+            if isinstance(v, ast.Call) and call_name(v) in ("split", "partition", "rsplit") \
+                    and norm(v.func.value) == param:
+                env[ev[1].targets[0].id] = S("?", True, True, "split:" + norm(v))
+            else:
+                a = _abstract_piece(v, param, env, split_safe)
+                if a is not None:
+                    env[ev[1].targets[0].id] = a
+    ret = p.end_node.value
+    if last_char_not_nl:
+        return None          # infeasible under the precondition 'line ends with a newline'
+    if not isinstance(ret, ast.Tuple) or len(ret.elts) != 2:
+        return "unknown"
+    if blank:
+        return (EMPTY(), EMPTY(), "blank line")
+    a = _abstract_piece(ret.elts[0], param, env, split_safe)
+    b = _abstract_piece(ret.elts[1], param, env, split_safe)
+    if a is None or b is None:
+        return "unknown"
+    label = norm(ret) + ("" if sep_present is None else (" [separator present]" if sep_present else " [no separator]"))
+    return (a, b, label)
 
 
 def r16_3(ctx: Ctx):
@@ -377,6 +458,15 @@ def r16_3(ctx: Ctx):
                "fragment (slices of the line, split/join, '' literals); not decided on this tree", undecided=True)
         return
     ctx.extra["split_states"] = [{"returns": src, "content": repr(a), "comment": repr(b)} for a, b, src in states]
+    # the split itself loses nothing: the terminator of a (non-blank, newline-terminated) line is in one of the two parts
+    for a_, b_, src_ in states:
+        if src_ == "blank line":
+            continue
+        lost = a_.end in ("drop", "empty") and b_.end in ("drop", "empty")
+        ctx.ob("R16.3", parse, "split %s" % src_, not lost,
+               "the line terminator ends up in the content or in the comment part" + ("" if not lost else
+               " -- here neither part has it (content %r, comment %r): the stored line has no line break and the next line of the "
+               "section is glued onto it when the file is written" % (a_, b_)), node=parse.node)
     # the split itself drops only the separator: exact forms of the pieces
     from ..pat import find as pfind, has as phas
     lp = [p_ for p_ in parse.params if p_ not in ("cls", "self")][0]
